@@ -69,13 +69,23 @@ func (w *world) Run(t *rt.Tape, trace bool) *core.Result {
 	smp := sample{Parties: n, Conns: k, Net: core.DescribeDir(dir) + fmt.Sprintf(" dial-latency-mode=%d", dialLat)}
 	joinDelay := make([]time.Duration, n)
 	connDelay := make([]time.Duration, n)
+	// "every order and timing in which the parties start": mostly milliseconds apart, in some
+	// runs seconds, in some an operator starts a party minutes or hours after the others (any
+	// waiting in the code under test that is bounded by a clock must survive that).
+	unit := time.Millisecond
+	switch t.Choose(rt.SGen, 10) {
+	case 7, 8:
+		unit = time.Second
+	case 9:
+		unit = 2 * time.Minute
+	}
 	for i := range ps {
 		ps[i] = &party{id: i, addr: fmt.Sprintf("party%d:9000", i)}
 		if t.Choose(rt.SGen, 2) == 1 {
-			joinDelay[i] = time.Duration(t.Choose(rt.SGen, 100)) * time.Millisecond
+			joinDelay[i] = time.Duration(t.Choose(rt.SGen, 100)) * unit
 		}
 		if t.Choose(rt.SGen, 2) == 1 {
-			connDelay[i] = time.Duration(t.Choose(rt.SGen, 100)) * time.Millisecond
+			connDelay[i] = time.Duration(t.Choose(rt.SGen, 100)) * unit
 		}
 		smp.Delays = append(smp.Delays, fmt.Sprintf("p%d: join+%v connect+%v", i, joinDelay[i], connDelay[i]))
 	}
